@@ -22,7 +22,7 @@ SPEC_FUNCS = {
     "log_pos", "yielded", "exists_event", "all_events", "isinstance_",
     "truthy", "mem", "count_held", "seq", "select", "glob0", "obj", "strip",
     "split", "join", "cfg", "reaches", "no_event_between", "log_len", "the",
-    "split_ws", "as_", "tail", "has_loop", "ordered", "count_events", "pre", "app_call", "dynattr", "seq1", "prefix_of", "unbox",
+    "split_ws", "as_", "tail", "has_loop", "ordered", "count_events", "pre", "app_call", "dynattr", "seq1", "prefix_of", "unbox", "is_bound", "obj_id", "cls_is",
 }
 
 
@@ -340,6 +340,8 @@ class SpecMixin:
             return VBool(self.truth(val(a[0]), st))
         if name == "obj":
             return VObj(to_obj_term(val(a[0])))
+        if name == "obj_id":
+            return VInt(to_obj_term(val(a[0])))
         if name == "cfg":
             return VBool(z3.Bool(f"cfg!{cstr(a[0])}"))
         if name == "mem":
@@ -355,6 +357,10 @@ class SpecMixin:
             if isinstance(v, VSeq):
                 return v
             raise EngineError(f"seq() of {v!r}")
+        if name == "is_bound":
+            m, recv, mn = val(a[0]), val(a[1]), cstr(a[2])
+            ok = isinstance(m, VFn) and m.kind == "bound" and m.name == mn and isinstance(m.self_, VRef)
+            return VBool(z3.And(z3.BoolVal(ok), m.self_.t == recv.t) if ok else z3.BoolVal(False))
         if name == "unbox":
             from .engine import _unbox_int
             return VInt(_unbox_int(term_of(val(a[0]))))
@@ -369,6 +375,9 @@ class SpecMixin:
             if st.gen_out is None:
                 raise EngineError("yielded() outside a generator")
             return VTuple(list(st.gen_out))
+        if name == "cls_is":
+            # exact dynamic class of a reference
+            return VBool(st.cls_of(term_of(val(a[0]))) == const_id(f"class:{cstr(a[1])}"))
         if name == "isinstance_":
             return VBool(self.isinstance_cond(val(a[0]), val(a[1]), st))
         # ---- path-local event log
